@@ -42,7 +42,11 @@ RULE = ('scenes = (style, targets, queries) with integer coordinates; styles: ra
         'inside, 1..40 targets, 1..12 queries; per scene k in {1,2,3,|T|-1,|T|,|T|+1,|T|+3} x bound in {inf, 0, sqrt(m) '
         'for m a realised squared distance and m-1, m+1}; Hausdorff on pairs of such sets; hop graphs on tet/hex/mixed '
         'bricks mapped by an integer matrix, radii on realised node distances; a case is non-trivial when the answer '
-        'is not all-padding / not zero / not empty; distinct = distinct (points, k, bound) resp. (A, B) resp. (mesh, r, mode)')
+        'is not all-padding / not zero / not empty; distinct = distinct (points, k, bound) resp. (A, B) resp. (mesh, r, mode). '
+        'Stream same-object: each search (k-nearest with two objects and as self-search, Hausdorff symmetric / directed, hop '
+        'graph nodal / elemental) is computed on one geometry, the node positions of the SAME objects are replaced through '
+        '`nodes.data = …` by an integer-affine image (connectivity unchanged, no cache cleared) and the search is repeated '
+        'with the same arguments; expected = exhaustive search on the current positions')
 ASSUMPTIONS = [
     'distances are compared through their squares: integer coordinates make every squared distance an exact binary64 '
     'integer and sqrt is monotone; the float box bounds of the real octree (w0 = 0.51*extent is inexact) can differ from '
@@ -496,8 +500,20 @@ def hop_oracle_elemental(pos, els, thr2, shared_node_in_ball):
     return out
 
 
-def hop_real(m, r, mode):
-    fd = MG.to_femio(m)
+def set_pos(fd, P):
+    """replace the node positions of the SAME FEMData object through the public setter"""
+    fd.nodes.data = np.asarray([[float(v) for v in p] for p in P], np.float64).reshape(-1, 3)
+
+
+def hop_real(m, r, mode, m0=None):
+    if m0 is None:
+        fd = MG.to_femio(m)
+    else:
+        # stream same-object: the object is built on the positions of m0 and asked the same question first, then its
+        # node positions are replaced by those of m (connectivity unchanged, no cache cleared)
+        fd = MG.to_femio(m0)
+        quiet(fd.calculate_euclidean_hop_graph, r, mode=mode)
+        set_pos(fd, [p for _, p in m['nodes']])
     adj = quiet(fd.calculate_euclidean_hop_graph, r, mode=mode)
     rr, cc = adj.nonzero()
     return {(int(a), int(b)) for a, b in zip(rr, cc)}, fd
@@ -512,25 +528,34 @@ def hop_indexed(m, fd):
     return pos, els
 
 
-def hop_case(ctx, m, r2, mode):
+def hop_case(ctx, m, r2, mode, m0=None):
+    """m0 given = stream same-object: hop graph(r, mode) on the positions of m0, `nodes.data = positions of m` on the same
+    object, hop graph(r, mode) again; expected = the definition on the current positions (those of m)"""
     r = math.sqrt(r2)
-    real, fd = hop_real(m, r, mode)
+    real, fd = hop_real(m, r, mode, m0)
     pos, els = hop_indexed(m, fd)
     thr = (r + 1e-8) * (r + 1e-8)
     thr2 = F(thr)
     case = {'kind': 'hop', 'mesh': MG.to_json(m), 'r2': r2, 'mode': mode}
+    so, after = '', ''
+    if m0 is not None:
+        case['mesh0'] = MG.to_json(m0)
+        case['history'] = 'hop graph(r, mode) on mesh0; nodes.data = positions of mesh; hop graph(r, mode) on the same object'
+        so, after = ':same-object', 'after `nodes.data = new positions` on the same object: '
+        if pos != [[int(v) for v in p] for _, p in m['nodes']]:
+            raise RuntimeError('harness: the node positions were not replaced')
     ithr = math.floor(thr)
     if mode == 'nodal':
         want = hop_oracle_nodal(pos, els, ithr)
         if real != want:
-            ctx.fail('hop:nodal', f'nodal hop graph differs from the chain definition: extra {sorted(real - want)[:5]}, '
+            ctx.fail('hop:nodal' + so, f'{after}nodal hop graph differs from the chain definition: extra {sorted(real - want)[:5]}, '
                      f'missing {sorted(want - real)[:5]}', case, sorted(real)[:40])
     else:
         want = hop_oracle_elemental(pos, els, ithr, False)
         if real != want:
             coded = hop_oracle_elemental(pos, els, ithr, True)
-            sig = 'hop:elemental:chain-through-node-outside-ball' if real == coded else 'hop:elemental'
-            ctx.fail(sig, f'elemental hop graph differs from the docstring definition: extra {sorted(real - want)[:5]}, '
+            sig = 'hop:elemental:chain-through-node-outside-ball' if real == coded else 'hop:elemental' + so
+            ctx.fail(sig, f'{after}elemental hop graph differs from the docstring definition: extra {sorted(real - want)[:5]}, '
                      f'missing {sorted(want - real)[:5]}' + (' (equals the relation "the shared node lies within r")' if real == coded else ''),
                      case, sorted(real)[:40])
     if ctx.driver is not None:
@@ -542,10 +567,10 @@ def hop_case(ctx, m, r2, mode):
         mod = {(t.nat(), t.nat()) for _ in range(n)}
         if mod != real:
             ctx.disagree('hop ' + mode, case, sorted(real)[:40], sorted(mod)[:40])
-    ctx.case(('hop', MG.enc_mesh(m), r2, mode),
-             sample={'kind': 'hop', 'mode': mode, 'mesh': MG.describe(m), 'r2': r2, 'pairs': len(real)},
+    ctx.case(('hop', MG.enc_mesh(m), r2, mode) + (('after', MG.enc_mesh(m0)) if m0 is not None else ()),
+             sample={'kind': 'hop' + so, 'mode': mode, 'mesh': MG.describe(m), 'r2': r2, 'pairs': len(real)},
              nontrivial=0 < len(real) < (len(pos) if mode == 'nodal' else len(els)) ** 2)
-    ctx.count(f'hop:{mode}:{m["kind"]}')
+    ctx.count(f'hop{so}:{mode}:{m["kind"]}')
     if any(d2(pos[a], pos[b]) == r2 for a in range(len(pos)) for b in range(a)):
         ctx.count('hop:radius-on-a-realised-distance')
 
@@ -560,6 +585,101 @@ def hop_docstring_example(ctx):
          'blocks': {'tet': [(1, [1, 2, 3, 4]), (2, [2, 5, 6, 3]), (3, [5, 7, 8, 9])]}}
     hop_case(ctx, m, 2, 'elemental')
     hop_case(ctx, m, 2, 'nodal')
+
+
+# ---------------------------------------------------------------- stream same-object (histories on one object)
+
+MOVES = [([[2, 0, 0], [0, 1, 1], [0, 0, -1]], [3, -2, 0]), ([[1, 1, 0], [0, 3, 0], [1, 0, 1]], [0, 0, 5]),
+         ([[-1, 0, 2], [0, 2, 0], [1, 0, 1]], [-4, 1, 1]), ([[0, 1, 0], [0, 0, 4], [1, 0, 0]], [0, 0, 0]),
+         ([[5, 0, 0], [0, 5, 0], [0, 0, 5]], [1, 1, 1])]
+
+
+def moved(P, mv):
+    """the same number of integer points somewhere else (invertible integer map that is not an isometry)"""
+    A, t = mv
+    return [[sum(A[r][c] * int(p[c]) for c in range(3)) + t[r] for r in range(3)] for p in P]
+
+
+def history_eval(case):
+    """the point searches asked twice on the SAME objects with the same arguments, the node positions replaced through
+    `nodes.data = …` in between (no cache cleared); the second answer must be the exhaustive-search answer on the current
+    positions.  Returns [(signature, what, observed)]."""
+    out = []
+    after = 'after `nodes.data = new positions` on the same object(s): '
+    if case['kind'] == 'knn-history':
+        T0, T, k, m = case['targets0'], case['targets'], case['k'], case['bound2']
+        ft = mk_points(T0)
+        fq = ft if case['self'] else mk_points(case['queries0'])
+        Q = T if case['self'] else case['queries']
+
+        def call():
+            return quiet(fq.nearest_neighbor_search_from_nodes_to_nodes, k, distance_upper_bound=bound_of(m),
+                         target_fem_data=None if case['self'] else ft)
+        call()
+        set_pos(ft, T)
+        if not case['self']:
+            set_pos(fq, Q)
+        idx, vec, dist = call()
+        for qi, q in enumerate(Q):
+            r = check_row(T, q, k, m, idx[qi], vec[qi], dist[qi])
+            if r is not None:
+                out.append((r[0] + ':same-object', f'{after}query {q} (k={k}, bound^2={m}): {r[1]}',
+                            {'query_index': qi, 'indices': idx[qi].tolist(), 'dists': [float(x) for x in dist[qi]]}))
+                break
+    else:
+        A, B = case['A'], case['B']
+        fa, fb = mk_points(case['A0']), mk_points(case['B0'])
+        directed = bool(case['directed'])
+        quiet(fa.calculate_hausdorff_distance_nodes, fb, directed=directed)
+        set_pos(fa, A)
+        set_pos(fb, B)
+        want = brute_hd2(A, B) if directed else max(brute_hd2(A, B), brute_hd2(B, A))
+        name = 'directed A->B' if directed else 'symmetric'
+        got = quiet(fa.calculate_hausdorff_distance_nodes, fb, directed=directed)
+        if not close(float(got), math.sqrt(want)):
+            out.append(('hausdorff:' + name.split()[0] + ':same-object',
+                        f'{after}{name}: returned {float(got)!r}, max-min over all pairs = sqrt({want})', float(got)))
+    return out
+
+
+def history_stream(ctx, n_pts, n_hop):
+    rnd = ctx.rng
+    for i in range(n_pts):
+        scene = gen_scene(rnd, rnd.randrange(len(STYLES)))
+        T, Q = scene['targets'], scene['queries']
+        mv = rnd.choice(MOVES)
+        # thin: every octree costs ~0.8 s, so one search history per scene (two objects / self-search alternate) and one
+        # Hausdorff history per two scenes (symmetric / directed alternate)
+        for self_, (k, m) in [(bool(i % 2), sweep(rnd, T, Q, 2)[i % 2])]:
+            case = {'kind': 'knn-history', 'targets0': moved(T, mv), 'queries0': moved(Q, mv), 'targets': T, 'queries': Q,
+                    'k': k, 'bound2': m, 'self': self_, 'style': scene['style'],
+                    'history': 'search(k, bound) on targets0 / queries0; nodes.data = targets / queries; search again'}
+            for sig, what, obs in history_eval(case):
+                ctx.fail(sig, what, case, obs)
+            ctx.case(('knn-history', repr(case)), sample={'kind': 'knn:same-object', 'style': scene['style'], 'k': k, 'bound2': m,
+                                                          'self': self_, 'n_targets': len(T)}, nontrivial=True)
+            ctx.count('same-object:knn:' + ('self-search' if self_ else 'two objects'))
+        if i % 2:
+            continue
+        A, B, label = gen_haus(rnd, rnd.randrange(len(HSTYLES)))
+        case = {'kind': 'hausdorff-history', 'A0': moved(A, mv), 'B0': moved(B, rnd.choice(MOVES)), 'A': A, 'B': B, 'label': label,
+                'directed': i % 4 == 2,
+                'history': 'Hausdorff distance of A0, B0; nodes.data = A / B on the same objects; Hausdorff distance again'}
+        for sig, what, obs in history_eval(case):
+            ctx.fail(sig, what, case, obs)
+        ctx.case(('hausdorff-history', repr(case)), sample={'kind': 'hausdorff:same-object', 'label': label, 'nA': len(A),
+                                                            'nB': len(B)}, nontrivial=brute_hd2(A, B) > 0)
+        ctx.count('same-object:hausdorff:' + ('directed' if case['directed'] else 'symmetric'))
+    for i in range(n_hop):
+        m = gen_hop_mesh(rnd)
+        A, t = rnd.choice(MOVES)
+        m0 = dict(m)
+        m0['nodes'] = [(j, tuple(moved([p], (A, t))[0])) for j, p in m['nodes']]
+        P = [p for _, p in m['nodes']]
+        real = sorted({d2(a, b) for a in P for b in P if a != b})
+        # radii that separate realised distances (a stale graph of the other geometry then differs)
+        for mode in ('nodal', 'nodal', 'elemental')[:2 + (i % 2)]:
+            hop_case(ctx, m, real[min(len(real) - 1, rnd.randint(0, 6))], mode, m0)
 
 
 # ---------------------------------------------------------------- entry points
@@ -588,6 +708,9 @@ def run(ctx):
         for mode in ('nodal', 'elemental'):
             r2 = ctx.rng.choice([0, real[0], real[min(len(real) - 1, ctx.rng.randint(0, 6))], ctx.rng.choice(real), real[0] + 1])
             hop_case(ctx, m, r2, mode)
+    # stream same-object: every search asked again with the same arguments after the node positions of the same object(s)
+    # were replaced through the public setter
+    history_stream(ctx, ctx.n(3, 24), ctx.n(8, 40))
 
 
 class _Collect:
@@ -622,7 +745,11 @@ def replay(ctx, obj):
     elif kind == 'hausdorff':
         haus_scene(ctx, case['A'], case['B'], case.get('label', 'replay'))
     elif kind == 'hop':
-        hop_case(ctx, MG.from_json(case['mesh']), case['r2'], case['mode'])
+        hop_case(ctx, MG.from_json(case['mesh']), case['r2'], case['mode'],
+                 MG.from_json(case['mesh0']) if 'mesh0' in case else None)
+    elif kind in ('knn-history', 'hausdorff-history'):
+        for sig, what, obs in history_eval(case):
+            ctx.fail(sig, what, case, obs)
     else:
         return {'fails': False, 'error': f'unknown case kind {kind!r}'}
     new = ctx.failures[before:]
